@@ -46,6 +46,10 @@ TOL_EXACT = 1e-11
 # top-right block) when 3e-4 < ||M|| < 5e-2 (error ~ ||M||^5: a degree-4 approximant is used in that window), 1e-15 elsewhere.
 # The kernel is an oracle of the model; its measured deviation on the run's own big_mat is allowed, capped:
 KERNEL_CAP = 1e-7
+# dense-mode correspondence: vectors are compared to DENSE_VEC_TOL as long as every earlier residual norm is >= DENSE_NOISE_N2
+# (rounding differences ~1e-15 x growth / ||w||); clean tree: worst deviation of a compared vector 5e-11
+DENSE_VEC_TOL = 1e-7
+DENSE_NOISE_N2 = 1e-6
 # backward: |autograd - dense| <= (TOL_BW * krylov_tolerance * max(1, 0.1/a_eff) + TOL_EXACT + KERNEL_CAP) * dt * ||g|| * ||dH/dp||
 # per entry (||dH/dp|| <= 1, omega/2 for phi; state gradient: without dt), a_eff = min(||A psi||, ||A g||/||g||).
 TOL_BW = 100.0
@@ -548,16 +552,32 @@ def correspondence_dense(rep: Report, drv: Driver, seed: int, count: int) -> Non
             # an accepted error estimate within a factor 10 of the tolerance may flip: judged only via the tape mode
             rep.count("dk_dense_size_flips")
             continue
-        ok = True
-        for got, want in ((f[8], Vs), (f[9], Vg)):
+        # Lanczos vector k+1 is w_k / ||w_k||: binary64 differences between the two runs (summation order) are amplified by
+        # 1/||w_k||. Once a residual norm falls below DENSE_NOISE_N2 (Krylov space numerically exhausted but ||w|| still above the
+        # tolerance - e.g. 1e-10 vs tolerance 1e-11: the next "vector" is normalised rounding noise and the basis can exceed the
+        # dimension) that vector and all later ones are legitimately different in the two runs: compare only the prefix before it,
+        # count the rest (sizes, T, big_mat, dS of such runs are compared exactly by the tape mode).
+        case_worst, ok = 0.0, True
+        for got, want, pr in ((f[8], Vs, rec.runs[0].parse()), (f[9], Vg, rec.runs[1].parse())):
             rows = got.split(";")
-            for r, w in zip(rows, want):
+            limit = 1
+            for x in pr["n2s"]:
+                if x < DENSE_NOISE_N2:
+                    break
+                limit += 1
+            if limit < len(want):
+                rep.count("dk_dense_noise_truncated_runs")
+                rep.count("dk_dense_vectors_not_compared", len(want) - limit)
+            for r, w in list(zip(rows, want))[:limit]:
                 v = np.array([uncx(z) for z in r.split(",")])
                 dev = float(np.abs(v - w.numpy()).max())
-                worst = max(worst, dev)
-                ok &= dev <= 1e-7
+                case_worst = max(case_worst, dev)
+                rep.count("dk_dense_vectors_compared")
+                ok &= dev <= DENSE_VEC_TOL
+        worst = max(worst, case_worst)
         if not ok:
-            rep.broke(f"correspondence double_krylov (dense): Lanczos vectors differ by {worst:.2e}; input={json.dumps(info)}")
+            rep.broke(f"correspondence double_krylov (dense): Lanczos vectors differ by {case_worst:.2e} (allowed {DENSE_VEC_TOL:.0e}, "
+                      f"vectors after a residual norm < {DENSE_NOISE_N2:.0e} excluded); input={json.dumps(info)}")
     rep.extra["dk_dense_cases"] = len(lines)
     rep.extra["dk_dense_max_vector_dev"] = worst
 
